@@ -152,6 +152,85 @@ Fixpoint walk_class (fuel : nat) (titles names : list (list Z)) (k : nat) (asc :
 Definition page_walk_class (titles names : list (list Z)) (k : nat) (asc : bool) : res (Z * list Z) :=
   walk_class (S (S (S (2 * length names)))) titles names k asc (if asc then 1 else 0) 0 [].
 
+(* ---- filtered listings: ptt.LoadGeneralBoards with a title filter or a keyword filter (keywordsNotInBoard) ----
+   types.Cstrcasestr = Cstrstr of the two byte-wise lower-cased slices: bytes.Index over the WHOLE array, then refused
+   when the first match starts at or after the first NUL. Only 'A'..'Z' are folded; bytes >= 0x80 (Big5) are compared
+   as they are. *)
+Fixpoint prefix_eqb (p s : list Z) : bool :=
+  match p with
+  | [] => true
+  | x :: p' => match s with [] => false | y :: s' => (x =? y) && prefix_eqb p' s' end
+  end.
+Fixpoint index_of (p s : list Z) (i : Z) : Z :=   (* bytes.Index: first position of p in s, counted from i; -1 = none *)
+  if prefix_eqb p s then i else match s with [] => -1 | _ :: s' => index_of p s' (i + 1) end.
+Definition cstrstr (s p : list Z) : Z :=
+  let i := index_of p s 0 in if (i <? 0) || (lenZ (cprefix s) <=? i) then -1 else i.
+Definition cstrcasestr (s p : list Z) : Z := cstrstr (map tolower s) (map tolower p).
+
+Definition BT : nat := Z.to_nat (Gen.Consts_default.ptttype.BTLEN + 1).
+Definition btitle (t : list Z) : list Z := fixlen BT t.   (* copy into a BoardTitle_t *)
+
+(* keywordsNotInBoard: a non-empty title filter decides alone; else a non-empty keyword must be in the title or the name *)
+Definition filtered_out (title name tf kw : list Z) : bool :=
+  match tf with
+  | _ :: _ => cstrcasestr (btitle title) tf <? 0
+  | [] => match kw with
+          | _ :: _ => (cstrcasestr (btitle title) kw <? 0) && (cstrcasestr (boardid name) kw <? 0)
+          | [] => false
+          end
+  end.
+(* loadGeneralBoardStat as SYSOP: not vacated and not filtered out. [ftitles]/[names] in the order of the index walked *)
+Definition vis_filter (ftitles names : list (list Z)) (tf kw : list Z) (i : Z) : bool :=
+  visible names i && negb (filtered_out (nth (Z.to_nat i) ftitles []) (nth (Z.to_nat i) names []) tf kw).
+
+(* the page loop and the two walks with the visibility predicate as a parameter *)
+Definition load_page_v (vis : Z -> bool) (n start : Z) (k : nat) (asc : bool) : list Z * option Z :=
+  let start' := if (start =? 0) && negb asc then n else start in
+  let got := firstn (S k) (filter vis (candidates n start' asc)) in
+  if Nat.eqb (length got) (S k) then (firstn k got, nth_error got k) else (got, None).
+
+Fixpoint walk_v (vis : Z -> bool) (fuel : nat) (names : list (list Z)) (k : nat) (asc : bool) (start pages : Z) (acc : list Z)
+  : res (Z * list Z) :=
+  match fuel with
+  | O => Hang
+  | S f =>
+      let '(items, next) := load_page_v vis (lenZ names) start k asc in
+      let acc' := acc ++ map (fun i => i + 1) items in
+      match next with
+      | None => Ok (pages + 1, acc')
+      | Some i =>
+          match find_by_name names (nth (Z.to_nat i) names []) asc with
+          | Ok s => if s <? 0 then Ok (pages + 1, acc') else walk_v vis f names k asc s (pages + 1) acc'
+          | Crash => Crash
+          | Hang => Hang
+          end
+      end
+  end.
+Fixpoint walk_class_v (vis : Z -> bool) (fuel : nat) (titles names : list (list Z)) (k : nat) (asc : bool) (start pages : Z) (acc : list Z)
+  : res (Z * list Z) :=
+  match fuel with
+  | O => Hang
+  | S f =>
+      let '(items, next) := load_page_v vis (lenZ names) start k asc in
+      let acc' := acc ++ map (fun i => i + 1) items in
+      match next with
+      | None => Ok (pages + 1, acc')
+      | Some i =>
+          match find_by_class titles names (cursor_class (nth (Z.to_nat i) titles [])) (nth (Z.to_nat i) names []) asc with
+          | Ok s => if s <? 0 then Ok (pages + 2, acc') else walk_class_v vis f titles names k asc s (pages + 1) acc'
+          | Crash => Crash
+          | Hang => Hang
+          end
+      end
+  end.
+
+Definition title5 (t : list Z) : list Z := firstn 5 (btitle t).
+(* bbs.LoadGeneralBoards(.., title, keyword, asc, BSORT_BY_NAME / BSORT_BY_CLASS) paged through its own next-cursor *)
+Definition page_walk_filtered (ftitles names : list (list Z)) (tf kw : list Z) (k : nat) (asc : bool) : res (Z * list Z) :=
+  walk_v (vis_filter ftitles names tf kw) (S (S (S (2 * length names)))) names k asc (if asc then 1 else 0) 0 [].
+Definition page_walk_class_filtered (ftitles names : list (list Z)) (tf kw : list Z) (k : nat) (asc : bool) : res (Z * list Z) :=
+  walk_class_v (vis_filter ftitles names tf kw) (S (S (S (2 * length names)))) (map title5 ftitles) names k asc (if asc then 1 else 0) 0 [].
+
 (* ---- the orders the two indexes are sorted with (cache/shm_board_by.go) ---- *)
 Definition less_name (a b : list Z) : bool := cstrcasecmp (boardid a) (boardid b) <? 0.
 Definition less_class (a b : list Z * list Z) : bool :=   (* (Title[:5], name) *)
@@ -358,7 +437,9 @@ Fixpoint chunk5 (l : list Z) : list (list Z) :=
 (* op 1 GetBid [names][bids][q]; 2 FindBoardIdxByName [names][q][asc]; 3 FindBoardIdxByClass [titles5][names][cls][q][asc];
    4 FindBoardAutoCompleteStartIdx [names][kw][asc]; 5 listing walk by name [names][k asc];
    7 listing walk by class [titles5][names][k asc] (both in by-class order);
-   8 a history in fresh state: one group per step (scen_step) *)
+   8 a history in fresh state: one group per step (scen_step);
+   10 filtered listing walk [names][whole titles, NUL-terminated][mode f...][k asc by] (both in the order of the index walked:
+      by = 0 name, 1 class; mode 1 = title filter, 2 = keyword filter) *)
 Definition run_case (args : list (list Z)) : list Z :=
   match args with
   | [[1]; names; bids; q] => wire (fun b => [b]) (get_bid (split0 names []) bids q)
@@ -370,5 +451,11 @@ Definition run_case (args : list (list Z)) : list Z :=
   | [[7]; titles; names; [k; asc]] =>
       wire (fun r => fst r :: snd r) (page_walk_class (chunk5 titles) (split0 names []) (Z.to_nat k) (negb (asc =? 0)))
   | [8] :: steps => ST_OK :: scen_run steps fresh
+  | [[10]; names; ftitles; mode :: f; [k; asc; by_]] =>
+      let tf := if mode =? 1 then f else [] in
+      let kw := if mode =? 1 then [] else f in
+      wire (fun r => fst r :: snd r)
+        (if by_ =? 0 then page_walk_filtered (split0 ftitles []) (split0 names []) tf kw (Z.to_nat k) (negb (asc =? 0))
+         else page_walk_class_filtered (split0 ftitles []) (split0 names []) tf kw (Z.to_nat k) (negb (asc =? 0)))
   | _ => [ST_BADCASE]
   end.
